@@ -35,6 +35,7 @@ PROPS = {
         "explanation": "Narrow claim on the hand-written forwarding code. Almost all propagation in the crate is `?` on RuntimeResult and the early-return macros, which the type system makes impossible to skip. Decided here by Verus contracts on real text: the macros xraise!/forward_err! return the error they receive; the search-budget closure of XGenerator::iter lets the budget's violation win and otherwise returns the element unchanged; the element closures of the adaptors Aggregate, Filter, TakeWhile, SkipUntil hand on a violation of the incoming element and a violation or error value answered by the user callback, unchanged and never as None. Decided by enumeration: every function of the crate that inspects a Result's failure case other than by `?`/macros is listed with its classification (documented handler, library-error conversion, forwarding arm with pinned text), with the number of sites pinned. NOT decided: leftmost-error order of constructions (std collect semantics), that a user function yields an unused erroring argument, that collections never contain errors, the other adaptors (SuccessorsUntil, Map, Zip, Group, Windows, WithCount, Product).",
         "units": [
             {"kind": "verus", "unit": "fwd"},
+            {"kind": "verus", "unit": "errh"},
             {"kind": "scan", "spec": "inspect_sites"},
         ],
         "unreached": [
@@ -103,6 +104,7 @@ PROPS = {
         "level": "proof",
         "units": [
             {"kind": "verus", "unit": "seq"},
+            {"kind": "verus", "unit": "comb"},
         ],
         "unreached": [
             "XSequence::{chain, value_to_idx}, get on Chain (partition_point), len on Chain/Map/Zip (macros over dyn Any downcasts, Cow, iterator chains: outside Verus' dialect; BigInt promotion closure makes them intractable for CBMC)",
